@@ -248,7 +248,8 @@ struct Ad
     void reseed(int q)
     {
         if constexpr (ck == CK::rr)
-            c.m_mt.seed(rng_seeds()[q % RNGQ]);
+            if (q != 255) // 255: keep drawing from the current generator stream (twin of a range)
+                c.m_mt.seed(rng_seeds()[q % RNGQ]);
         (void)q;
     }
 
@@ -544,9 +545,20 @@ struct Ad
                 else
                     return c.m_lru_end;
             }();
+            // Slot ids are arbitrary labels: the code only ever uses them to index m_elements, so its
+            // behaviour is invariant under a consistent relabelling.  Rename slots in order of appearance
+            // in the (complete) lru list; a slot id outside the list or repeated in it is printed raw
+            // with a '!' so that corrupted states never merge with sound ones.
+            std::vector<long> ren(c.m_elements.size(), -1);
+            auto              rn = [&](size_t sl) -> std::string {
+                if (sl < ren.size() && ren[sl] >= 0)
+                    return std::to_string(ren[sl]);
+                return "!" + std::to_string(sl);
+            };
             s << "u" << c.m_used_size << " b" << c.m_keyed_elements.bucket_count() << " L[";
             std::vector<size_t> used;
             bool                inused = true;
+            long                nextid = 0;
             for (auto it = lst.begin(); it != lst.end(); ++it)
             {
                 if (it == end)
@@ -554,7 +566,13 @@ struct Ad
                     s << "|";
                     inused = false;
                 }
-                s << *it << ",";
+                if (*it < ren.size() && ren[*it] < 0)
+                {
+                    ren[*it] = nextid++;
+                    s << ren[*it] << ",";
+                }
+                else
+                    s << "!" << *it << ",";
                 if (inused && *it < c.m_elements.size())
                     used.push_back(*it);
             }
@@ -565,7 +583,7 @@ struct Ad
             for (auto& kv : c.m_keyed_elements)
                 km[kv.first.v] = kv.second;
             for (auto& kv : km)
-                s << kv.first << ">" << kv.second << ",";
+                s << kv.first << ">" << rn(kv.second) << ",";
             s << "}";
             TimeCanon tc;
             if constexpr (ck == CK::tlru || ck == CK::utlru)
@@ -581,21 +599,21 @@ struct Ad
             {
                 s << " T[";
                 for (auto& kv : c.m_ttl_list)
-                    s << tc(kv.first) << ":" << kv.second << ",";
+                    s << tc(kv.first) << ":" << rn(kv.second) << ",";
                 s << "]";
             }
             if constexpr (ck == CK::utlru)
             {
                 s << " ttl" << c.m_ttl.count() << " T[";
                 for (auto v : c.m_ttl_list)
-                    s << v << ",";
+                    s << rn(v) << ",";
                 s << "]";
             }
-            std::sort(used.begin(), used.end());
+            // used slots in list order (= renamed id order)
             for (auto sl : used)
             {
                 auto& e = c.m_elements[sl];
-                s << " S" << sl << "(k" << key_of(c.m_keyed_elements, e.m_keyed_position);
+                s << " S" << rn(sl) << "(k" << key_of(c.m_keyed_elements, e.m_keyed_position);
                 if constexpr (ck == CK::mru)
                     s << " l" << pos_in(lst, e.m_mru_position);
                 else
